@@ -2,6 +2,7 @@ import QipVerif.Lemmas.RenderEqual
 /-! C20: rows only grow at their right end, so the label written by `_add_wire_labels`
 stays at the start of the middle row; validity of circuits; row widths for the counter-example. -/
 namespace QipVerif.Render
+variable {v : Variant}
 
 /-- a property of a wire that survives appending to its rows / editing its layer list -/
 structure Stable (P : Wire → Prop) : Prop where
@@ -29,7 +30,7 @@ theorem place_stable {P : Wire → Prop} (hP : Stable P) (align : Bool) (N : Nat
   exact hw
 
 theorem steps_stable {P : Wire → Prop} (hP : Stable P) {sty : Style} {N C : Nat} {ops : List Op} {st st' : St}
-    (h : steps sty N C st ops = .ok st') (k : Nat) (w : Wire) (hk : st[k]? = some w) (hw : P w) :
+    (h : steps v sty N C st ops = .ok st') (k : Nat) (w : Wire) (hk : st[k]? = some w) (hw : P w) :
     ∃ w', st'[k]? = some w' ∧ P w' := by
   induction ops generalizing st w with
   | nil => cases h; exact ⟨w, hk, hw⟩
@@ -59,7 +60,7 @@ theorem stable_prefix (pre : Str) : Stable (fun w => pre <+: w.mid) := by
   · intro g w h; exact List.prefix_append_of_prefix h
 
 /-- the middle row of a labelled wire starts with ` label ␣…:` when `layout` prints -/
-theorem layoutSt_label {sty : Style} {c : Circ} {st : St} (h : layoutSt sty c = .ok st)
+theorem layoutSt_label {sty : Style} {c : Circ} {st : St} (h : layoutSt v sty c = .ok st)
     (k : Nat) (hk : k < c.N + c.C) (l : Str) (hl : (wireLabels sty c.N c.C)[k]? = some l) :
     ∃ w, st[k]? = some w ∧
       labelPrefix (lmax ((wireLabels sty c.N c.C).map List.length)) l <+: w.mid := by
@@ -80,19 +81,20 @@ def opValid (N C : Nat) : Op → Bool
   | .gate _ _ targets controls =>
     !targets.isEmpty && (targets ++ ctrlList controls).all (fun q => decide (q < N)) &&
       decide ((targets ++ ctrlList controls).Nodup)
+  | .glob _ _ => true
 
 def circValid (sty : Style) (c : Circ) : Bool := styleOk sty c.N c.C && c.ops.all (opValid c.N c.C)
 
 /-- the widths of the printed rows -/
-def rowWidths (sty : Style) (c : Circ) : Option (List Nat) :=
-  match render sty c with
+def rowWidths (v : Variant) (sty : Style) (c : Circ) : Option (List Nat) :=
+  match render v sty c with
   | .ok rows => some (rows.map List.length)
   | .error _ => none
 
 /-- all rows have one width -/
 def EqualWidth (rows : List Str) : Prop := ∀ r ∈ rows, ∀ r' ∈ rows, r.length = r'.length
 
-theorem rowWidths_of_render {sty : Style} {c : Circ} {rows : List Str} (h : render sty c = .ok rows) :
-    rowWidths sty c = some (rows.map List.length) := by simp [rowWidths, h]
+theorem rowWidths_of_render {sty : Style} {c : Circ} {rows : List Str} (h : render v sty c = .ok rows) :
+    rowWidths v sty c = some (rows.map List.length) := by simp [rowWidths, h]
 
 end QipVerif.Render
